@@ -331,7 +331,7 @@ def first_diff(a, b, path=""):
 
 # ----------------------------------------------------------------------------------------------- operations
 OPS = ["clone", "detach", "cpu", "rebuild", "evaluate_kernel", "rebuild2", "double", "float", "to(f32)", "to(f64)",
-       "to(dtype=f32)", "to(tensor:f64)", "type(f32)", "type(f64)", "to(cpu,f64)"]
+       "to(dtype=f32)", "to(tensor:f64)", "type(f32)", "type(f64)", "to(cpu,f64)", "to(cpu)"]
 
 
 def op_target(opname, src):
@@ -387,6 +387,8 @@ def apply_op(o, opname, other=None):
         return o.to(torch.zeros(1, dtype=F64))
     if opname == "to(cpu,f64)":
         return o.to(torch.device("cpu"), F64)
+    if opname == "to(cpu)":
+        return o.to(torch.device("cpu"))
     if opname == "type(f32)":
         return o.type(F32)
     if opname == "type(f64)":
